@@ -77,6 +77,20 @@ void delete_routing_table(struct peer *p)
 	HASHTABLE_DELETE(route_table, p->routing_table);
 }
 
+static bool add_item_checked(cJSON *object, const char *key, cJSON *item)
+{
+	if (unlikely(item == NULL)) {
+		return false;
+	}
+
+	if (unlikely(!cJSON_AddItemToObject(object, key, item))) {
+		cJSON_Delete(item);
+		return false;
+	}
+
+	return true;
+}
+
 cJSON *create_routed_message(const struct peer *p, const char *path, enum type what,
                              const cJSON *value, const char *id)
 {
@@ -85,17 +99,13 @@ cJSON *create_routed_message(const struct peer *p, const char *path, enum type w
 		return NULL;
 	}
 
-	cJSON *json_id = cJSON_CreateString(id);
-	if (unlikely(json_id == NULL)) {
+	if (unlikely(!add_item_checked(message, "id", cJSON_CreateString(id)))) {
 		goto error;
 	}
-	cJSON_AddItemToObject(message, "id", json_id);
 
-	cJSON *method = cJSON_CreateString(path);
-	if (unlikely(method == NULL)) {
+	if (unlikely(!add_item_checked(message, "method", cJSON_CreateString(path)))) {
 		goto error;
 	}
-	cJSON_AddItemToObject(message, "method", method);
 
 	cJSON *value_copy;
 	if (value != NULL) {
@@ -103,19 +113,21 @@ cJSON *create_routed_message(const struct peer *p, const char *path, enum type w
 	} else {
 		value_copy = cJSON_CreateObject();
 	}
-	if (unlikely(value_copy == NULL)) {
-		goto error;
-	}
 
 	if (what == METHOD) {
-		cJSON_AddItemToObject(message, "params", value_copy);
-	} else {
-		cJSON *params = cJSON_CreateObject();
-		if (unlikely(params == NULL)) {
+		if (unlikely(!add_item_checked(message, "params", value_copy))) {
 			goto error;
 		}
-		cJSON_AddItemToObject(message, "params", params);
-		cJSON_AddItemToObject(params, "value", value_copy);
+	} else {
+		cJSON *params = cJSON_CreateObject();
+		if (unlikely(!add_item_checked(message, "params", params))) {
+			cJSON_Delete(value_copy);
+			goto error;
+		}
+
+		if (unlikely(!add_item_checked(params, "value", value_copy))) {
+			goto error;
+		}
 	}
 
 	return message;
